@@ -1,7 +1,7 @@
 // @common
     use crate::verif_ref::base;
 
-// @h id=H7.7 prop=C07,C08 tier=quick cap=900 mem=10 unwind=34 uw="fold=257" checks=std bounds="archive with one tile at any valid id (< first id of zoom 32), 1 content byte; query any (z,x,y) in u8 x u64 x u64 that is NOT a tile coordinate"
+// @h id=H7.7 prop=C07,C08 tier=quick cap=900 mem=10 unwind=34 checks=std bounds="archive with one tile at any valid id (< first id of zoom 32), 1 content byte; query any (z,x,y) in u8 x u64 x u64 that is NOT a tile coordinate"
     /// a lookup by coordinates that do not denote a tile reports no tile or an error: never another tile's bytes, never a crash
     #[kani::proof]
     fn h7_7_out_of_grid_lookup() {
